@@ -5,7 +5,7 @@ from harness import common, gen, api, live
 from harness.common import fhex, flist, ftable, ftable2, cbool
 
 LEVEL = "proof"
-IMPORTS = ["From MuxV Require Import Base.Num Base.FInst Base.Interp Model.Atmos Model.AtmosF."]
+IMPORTS = ["From MuxV Require Import Base.Num Base.FInst Base.Vec3 Base.Interp Model.Atmos Model.AtmosF Model.FieldInterp Model.FieldInterpF."]
 WHICH = ["T", "P", "rho", "mu", "a", "nu"]
 
 
@@ -262,6 +262,88 @@ def field_tables(chk, MX, n):
 
 
 
+def field_model_cases(chk, MX, n):
+    """NON-affine wind / density field tables against Model/FieldInterp.v: the Delaunay triangulation of the table's nodes (built by the harness with Qhull; unique because the
+    nodes are jittered into general position) says which simplex contains the query point; the model evaluates the barycentric combination of the node values taken from the table
+    as it was written (so the column wiring is part of the comparison); query points are the aircraft origin, a node, random points
+    (array call) and every control point of a solved scene (the values the solver used)."""
+    from harness.common import fhex, fv3
+    rng = chk.rng
+    cases, descr = [], []
+    for i in range(n):
+        units = rng.choice(["English", "SI"])
+        xs = [-300.0, 0.0, 400.0]
+        ys = [-250.0, 50.0, 300.0]
+        zs = [-3000.0, -1500.0, 0.0]
+        r0 = 0.0023 if units == "English" else 1.2
+        wind_rows, rho_rows = [], []
+        for x in xs:
+            for y in ys:
+                for z in zs:
+                    q = [x + rng.uniform(-40, 40), y + rng.uniform(-40, 40), z + rng.uniform(-200, 200)]       # general position
+                    wind_rows.append(q + [rng.uniform(-12, 12), rng.uniform(-12, 12), rng.uniform(-3, 3)])
+                    rho_rows.append(q + [r0 * rng.uniform(0.85, 1.1)])
+        for _ in range(rng.randint(0, 5)):                                                                      # scattered extra nodes
+            q = [rng.uniform(-250, 350), rng.uniform(-200, 250), -rng.uniform(100, 2900)]
+            wind_rows.append(q + [rng.uniform(-12, 12), rng.uniform(-12, 12), rng.uniform(-3, 3)])
+            rho_rows.append(q + [r0 * rng.uniform(0.85, 1.1)])
+        sd = {"units": units, "scene": {"atmosphere": {"V_wind": wind_rows, "rho": rho_rows}}}
+        ac = gen.simple_wing_aircraft(N=4, b=rng.uniform(3, 8))
+        pos = [rng.uniform(-150, 250), rng.uniform(-150, 200), -rng.uniform(500, 2500)]
+        st = {"velocity": rng.uniform(60, 120), "alpha": rng.uniform(-2, 4), "position": pos,
+              "orientation": [rng.uniform(-60, 60), rng.uniform(-20, 20), rng.uniform(-170, 170)]}
+        try:
+            sc = gen.build_scene(MX, sd, [("a", ac, st, {})])
+            api.solve(sc)
+        except Exception as e:
+            if type(e).__name__ == "SolverNotConvergedError":
+                chk.count("field_nonconverged")
+                continue
+            chk.violation("field:raises", dict(kind="field-model", scene_units=units, state=st, error=repr(e)))
+            return cases, descr
+        chk.case(dict(kind="field-model", units=units, i=i, nodes=len(rho_rows)), nontrivial=True)
+        W = np.array(wind_rows, dtype=float)
+        Rr = np.array(rho_rows, dtype=float)
+        # the Delaunay triangulation of the nodes as written (unique for nodes in general position), built here and not read from the live object
+        import scipy.spatial
+        tri = scipy.spatial.Delaunay(Rr[:, :3])
+        PC = np.array(sc._PC, dtype=float)
+        rnd = np.array([[rng.uniform(-150, 250), rng.uniform(-150, 200), -rng.uniform(500, 2500)] for _ in range(6)])
+        node = Rr[rng.randrange(len(Rr)), :3]
+        queries = []      # (how, point, live density, live wind)
+        queries.append(("single", np.array(pos, dtype=float), float(np.asarray(sc._get_density(np.array(pos, dtype=float))).reshape(-1)[0]),
+                        np.array(sc._get_wind(np.array(pos, dtype=float)), dtype=float).reshape(3)))
+        queries.append(("node", node, float(np.asarray(sc._get_density(node)).reshape(-1)[0]), np.array(sc._get_wind(node), dtype=float).reshape(3)))
+        ra = np.asarray(sc._get_density(rnd), dtype=float).reshape(-1)
+        wa = np.asarray(sc._get_wind(rnd), dtype=float).reshape(-1, 3)
+        for k in range(len(rnd)):
+            queries.append(("array", rnd[k], float(ra[k]), wa[k]))
+        rho_cp = np.asarray(sc._rho, dtype=float) * np.ones(len(PC))
+        vw_cp = np.asarray(sc._v_wind, dtype=float).reshape(len(PC), 3)
+        for k in range(len(PC)):
+            queries.append(("control-point", PC[k], float(rho_cp[k]), vw_cp[k]))
+        rr = float(np.ptp(Rr[:, 3]))
+        for how, pt, lr, lw in queries:
+            s_ = int(tri.find_simplex(pt))
+            if s_ < 0:
+                chk.count("field_query_outside_hull")
+                continue
+            idx = [int(j) for j in tri.simplices[s_]]
+            vs = [Rr[j, :3] for j in idx]
+            cases.append("chk_field 0x1p-30 %s %s %s %s %s %s %s %s %s %s %s" % (
+                fhex(1e-6 * rr), fv3(vs[0]), fv3(vs[1]), fv3(vs[2]), fv3(vs[3]),
+                fhex(Rr[idx[0], 3]), fhex(Rr[idx[1], 3]), fhex(Rr[idx[2], 3]), fhex(Rr[idx[3], 3]), fv3(pt), fhex(lr)))
+            descr.append(dict(kind="field-model", what="density", how=how, units=units, point=pt.tolist(), simplex_nodes=[Rr[j].tolist() for j in idx], live=lr,
+                              scene=sd, state=st))
+            cases.append("chk_wind_field 0x1p-30 %s %s %s %s %s %s %s %s %s %s %s" % (
+                fhex(2.4e-5), fv3(vs[0]), fv3(vs[1]), fv3(vs[2]), fv3(vs[3]),
+                fv3(W[idx[0], 3:]), fv3(W[idx[1], 3:]), fv3(W[idx[2], 3:]), fv3(W[idx[3], 3:]), fv3(pt), fv3(lw)))
+            descr.append(dict(kind="field-model", what="wind", how=how, units=units, point=pt.tolist(), simplex_nodes=[W[j].tolist() for j in idx], live=lw.tolist(),
+                              scene=sd, state=st))
+            chk.count("field_model_" + how)
+    return cases, descr
+
+
 def scene_sampling(chk, MX, n):
     """profile tables / constants / 'standard' through the Scene getters, and per-control-point sampling."""
     rng = chk.rng
@@ -427,12 +509,15 @@ def run(chk):
     chk.proofs(extra_trusted=[
         "Live/LiveTables.v: constants read from the running StandardAtmosphere object (harness/live.py)",
         "correspondence: Model/Atmos.v on binary64 vs StandardAtmosphere methods to 4 ulp; exp and ** supplied as oracle tables of NumPy's own results",
-        "modelled, not verified: libm exp/pow, np.interp (re-implemented in Base/Interp.v and compared bit-exactly), scipy LinearNDInterpolator (field tables: not modelled; exercised with affine tables, which linear interpolation reproduces exactly)",
+        "modelled, not verified: libm exp/pow, np.interp (re-implemented in Base/Interp.v and compared bit-exactly), scipy LinearNDInterpolator (field tables: the evaluation inside a simplex is Model/FieldInterp.v, compared on non-affine tables at the aircraft origin, nodes, random points and every control point of solved scenes; the Delaunay triangulation and the point location are Qhull's and enter as data - C17_field_tables holds for whatever non-degenerate simplex they provide)",
         "search oracle: scipy solve_ivp integration of the hydrostatic ODE (validation only)"])
     cases, descr = atmosphere_cases(chk, chk.q(400, 4000))
     c2, d2 = interp_cases(chk, chk.q(300, 3000))
     cases += c2
     descr += d2
+    c3, d3 = field_model_cases(chk, MX, chk.q(5, 40))
+    cases += c3
+    descr += d3
     failing, nfiles, errors = common.run_cases("C17", IMPORTS, [], cases)
     chk.cov["traces_validated_against_impl"] = len(cases)
     chk.cov["correspondence_cases"] = len(cases)
